@@ -318,8 +318,8 @@ def c17(tier, repo=None, only_cases=None):
            "exhaustive": exhaustive, "model_runs": model_runs, "families": gen_stats, "observation_lines": len(lines),
            "trace_validation_states": res["states"], "distinct_schedules": len(orders), "schedule_not_forced": unforced,
            "process_crashes": crashes, "rejected_cases": len(bad), "confirmed": len(confirmed), "known_findings": n_known}
-    if only_cases is None:
-      vlib.write_evidence(prop, tier, "model_checking", cov, assumptions=[
+    if only_cases is None:       # a --replay run never overwrites the evidence of the last real run
+        vlib.write_evidence(prop, tier, "model_checking", cov, assumptions=[
         "tools are the harness's deterministic functions name(args); a streaming tool yields 1-2 chunks; arguments are distinct per call",
         "a panic of the first (inline) tool when ToolsNode is called outside a graph reaches the caller by construction: not judged",
         "with several failing tools the error of any one of them is accepted; the error is identified by errors.As or by its text",
@@ -493,8 +493,8 @@ def c18(tier, repo=None, only_cases=None):
                    "against spec/ReActObs.tla; distinct = distinct (script, rd, MaxStep, modifier, checker, chunking); non-trivial = " + c18_nontrivial.__doc__,
            "exhaustive": exhaustive, "model_runs": model_runs, "families": gen_stats, "observation_lines": len(lines),
            "trace_validation_states": res["states"], "rejected_cases": len(bad), "confirmed": len(confirmed), "known_findings": n_known}
-    if only_cases is None:
-      vlib.write_evidence(prop, tier, "model_checking", cov, assumptions=[
+    if only_cases is None:       # a --replay run never overwrites the evidence of the last real run
+        vlib.write_evidence(prop, tier, "model_checking", cov, assumptions=[
         "the k-th model call answers script[min(k, |script|)]; tools are the deterministic functions name(args), never failing",
         "default step limit = number of nodes + 10 as documented at AgentConfig.MaxStep (12, and 13 when a return-directly set adds the direct-return node)",
         "content-before-tool-call chunkings are only used with a custom whole-stream StreamToolCallChecker: the default first-chunk checker is "
